@@ -9,9 +9,9 @@ import (
 	dcp "github.com/Trendyol/go-dcp"
 	"github.com/Trendyol/go-dcp/api"
 	"github.com/Trendyol/go-dcp/config"
-	"github.com/asaskevich/EventBus"
 	"github.com/Trendyol/go-dcp/helpers"
 	"github.com/Trendyol/go-dcp/membership"
+	"github.com/asaskevich/EventBus"
 	"github.com/prometheus/client_golang/prometheus"
 
 	"verif/vrt"
